@@ -27,7 +27,7 @@ type propCfg struct {
 
 var cfgs = map[string]propCfg{
 	"C01": {prof: progen.Profile{Name: "C01", Families: true, NoFallible: false, RiskyShapes: 60}, quickProgs: 400, quickRuns: 200, thoroughProgs: 600, thoroughBatch: 10, thoroughRuns: 1500,
-		rule: "one evaluation = one seeded schedule (strategy x PRNG x simulated provider latencies) of one generated injector, fault-free; oracle at every provider entry: producers have returned, received terms equal the producers' terms, vector-clock race detector silent, no panic. distinct = distinct event-log hashes (thread, kind, detail sequences); non-trivial = the run had at least one goroutine"},
+		rule: "one evaluation = one seeded schedule (strategy x PRNG x simulated provider latencies) of one generated injector - fault-free, under a provider-failure plan, or cancelled at a sampled step; oracle at every provider entry: producers have returned, received terms equal the producers' terms, vector-clock race detector silent, no panic. distinct = distinct event-log hashes (thread, kind, detail sequences); non-trivial = the run had at least one goroutine"},
 	"C02": {prof: progen.Profile{Name: "C02", Families: true, RiskyShapes: 60}, quickProgs: 400, quickRuns: 40, thoroughProgs: 600, thoroughBatch: 10, thoroughRuns: 300,
 		rule: "one evaluation = one seeded schedule of one generated injector, fault-free; the returned term (the whole evaluation tree), the multiset of provider invocations and every provider's received argument terms are compared with a sequential reference interpreter of the declaration; families = the same DAG rendered with different Async subsets, Set groupings and declaration orders must yield the same term. distinct = distinct event-log hashes"},
 	"C03": {prof: progen.Profile{Name: "C03", Families: true, NoFallible: false, RiskyShapes: 60}, quickProgs: 400, quickRuns: 200, thoroughProgs: 600, thoroughBatch: 10, thoroughRuns: 1500,
